@@ -117,6 +117,10 @@ def op_t(m, op):
         sb = op["sub"]
         return "(ACl %s (ORecover (mkSubst %s %s %s %s %s)))" % (
             m.ctx(op), m.client(sb["client"]), opt(sb["cons"], m.cons), opt(sb["ph"], m.h), opt(sb["pt"], m.n), b(sb["matching"]))
+    if k == "upgrade":
+        u = op["upg"]
+        return "(ACl %s (OUpgrade (mkUpg %s %s %s %s %s)))" % (
+            m.ctx(op), m.h(u["latest"]), m.z(u["ts"]), m.hx(u["nvh"]), m.z(u["tp"]), N(1 if u["ok"] else 0))
     if k == "prune":
         return "(ACl %s OPrune)" % m.ctx(op)
     if k == "pruneall":
